@@ -56,6 +56,25 @@ Proof.
 Qed.
 Print Assumptions C19_isotope_lookup_by_every_identifier.
 
+(* argument forms: any other object (numpy.str_, numpy.int64, an instance of a Python subclass ...) is
+   looked up through its str(), so it finds the element exactly when its str() spells an identifier;
+   and `number` may be any truthy object whose str() is the decimal mass number (int, numpy integer,
+   the string "2"), with the element given in any form lookup_element resolves *)
+Theorem C19_lookup_any_argument_form :
+  forall r, wf r = true ->
+  (forall e, In e (elements r) ->
+     forall s, lower s = lower (e_name e) \/ lower s = lower (e_symbol e) \/ lower s = zstr (e_Z e) ->
+     lookup_element r (VOther s) = Ok e)
+  /\ (forall i, In i (isotopes r) ->
+      forall v, (forall j, v <> VSpecies (SI j)) -> lookup_element r v = Ok (i_element i) ->
+      lookup_isotope_core (element_index r) (isotope_index r) v (Some (zstr (i_A i))) = Ok i).
+Proof.
+  intros r W. split.
+  - intros e He s Hs. apply lookup_element_other; assumption.
+  - intros i Hi v Hv Hl. apply lookup_isotope_core_number; assumption.
+Qed.
+Print Assumptions C19_lookup_any_argument_form.
+
 (* a string that is no key of any element / isotope raises ValueError: nothing is resolved by accident *)
 Theorem C19_unknown_keys_rejected :
   forall r s,
